@@ -1052,3 +1052,139 @@ func ruleGlobalPanicFatalDelegate(r *Run, p *Prog, rule string) {
 		r.Ob(rule, FnName(f)+"/always-delegates", p.Pos(f.Pos()), !skip, true, tern(!skip, "every path goes through (*Logger)."+name+", which attaches the completion that panics/exits also for a filtered event", "log."+name+"() can return without calling (*Logger)."+name+": for a filtered level nothing panics/exits, unlike log.Logger."+name+"()"+pathHint(p, path)))
 	}
 }
+
+// ruleConsumerAlwaysStarted: every return of diode.NewWriter has started the consumer goroutine:
+// Close waits for the channel only that goroutine closes, so a constructor shortcut (for a discard
+// destination, say) that skips the go statement makes Close block for ever.
+func ruleConsumerAlwaysStarted(r *Run, p *Prog, rule string) {
+	f := p.Func("diode", "NewWriter")
+	poll := p.Method("diode", "Writer", "poll")
+	if !r.Anchor(f != nil && poll != nil, rule, "diode.NewWriter / (Writer).poll") {
+		return
+	}
+	fv := p.View(f, "", nil)
+	starts := func(in ssa.Instruction) bool {
+		g, ok := in.(*ssa.Go)
+		if !ok {
+			return false
+		}
+		if sc := staticCallee(&g.Call); sc != nil {
+			return sc == poll || callsFn(sc, poll)
+		}
+		return false
+	}
+	skip, path := pathExists(fv, nil, isReturn, starts, nil)
+	r.Ob(rule, FnName(f)+"/consumer-started-on-every-path", p.Pos(f.Pos()), !skip, true, tern(!skip, "every return of NewWriter comes after the go statement that starts poll", "NewWriter can return a Writer whose consumer goroutine was never started: Close waits for a channel only poll closes and never returns"+pathHint(p, path)))
+}
+
+// ruleConstructorSetsConfigOnly: NewConsoleWriter stores exported (configuration) fields only;
+// anything derived from the configuration is computed from it when an event is written. A cache
+// filled at construction goes stale when the caller assigns the exported field afterwards (the
+// documented way to configure the writer), and equal configurations stop producing equal bytes.
+func ruleConstructorSetsConfigOnly(r *Run, p *Prog, rule string) {
+	f := p.Func("", "NewConsoleWriter")
+	named := p.NamedType("", "ConsoleWriter")
+	if !r.Anchor(f != nil && named != nil, rule, "NewConsoleWriter / ConsoleWriter") {
+		return
+	}
+	fv := p.View(f, "", nil)
+	bad, badPos := "", ""
+	eachInstr(fv, func(b *ssa.BasicBlock, i int, in ssa.Instruction) {
+		st, ok := in.(*ssa.Store)
+		if !ok {
+			return
+		}
+		fa, ok := st.Addr.(*ssa.FieldAddr)
+		if !ok || namedOf(fa.X.Type()) != named {
+			return
+		}
+		if fld := fieldVar(fa); !fld.Exported() && bad == "" {
+			if c, isC := st.Val.(*ssa.Const); isC && (c.Value == nil || c.IsNil()) {
+				return // zeroing
+			}
+			bad, badPos = fld.Name(), p.Pos(st.Pos())
+		}
+	})
+	r.Ob(rule, FnName(f)+"/sets-configuration-only", tern(bad != "", badPos, p.Pos(f.Pos())), bad == "", true, tern(bad == "", "the constructor stores exported configuration fields only", "NewConsoleWriter fills the private field "+bad+" from the configuration it was given: assigning the exported field afterwards (w.FieldsOrder = …) is then ignored, so two writers with equal configuration render the same event differently"))
+}
+
+// ruleCallerHookPinsItsCount: Context.CallerWithSkipFrameCount always registers a hook built from
+// its own argument; falling back to the shared default hook (which re-reads the global on every
+// event) un-pins the count when the global is changed later.
+func ruleCallerHookPinsItsCount(r *Run, p *Prog, rule string) {
+	f := p.Method("", "Context", "CallerWithSkipFrameCount")
+	nh := p.Func("", "newCallerHook")
+	if !r.Anchor(f != nil && nh != nil, rule, "Context.CallerWithSkipFrameCount / newCallerHook") {
+		return
+	}
+	fv := p.View(f, "keep-newCallerHook", func(g *ssa.Function) bool { return g == nh })
+	var cnt *ssa.Parameter
+	for _, pr := range fv.Params {
+		if b, ok := pr.Type().Underlying().(*types.Basic); ok && b.Info()&types.IsInteger != 0 {
+			cnt = pr
+		}
+	}
+	pins := func(in ssa.Instruction) bool {
+		c, ok := in.(*ssa.Call)
+		return ok && staticCallee(&c.Call) == nh && cnt != nil && len(c.Call.Args) == 1 && c.Call.Args[0] == ssa.Value(cnt)
+	}
+	skip, path := pathExists(fv, nil, isReturn, pins, nil)
+	r.Ob(rule, FnName(f)+"/pins-its-argument", p.Pos(f.Pos()), !skip, true, tern(!skip, "every path registers newCallerHook(skipFrameCount) with the method's own argument", "CallerWithSkipFrameCount can return without registering a hook built from its argument (e.g. reusing the default hook when the argument equals the global at that moment): the logger's frame count then follows later changes of the global and the caller field names a frame above or below the call site"+pathHint(p, path)))
+}
+
+// ruleFieldHandlersUnconditional: an hlog field handler adds its field whenever it has a value to
+// add: the UpdateContext call is control-dependent only on "the key/value is not empty", "parsing
+// succeeded" and "a lookup found something" — never on the negative outcome of a lookup (`!ok`:
+// "only when the id was generated here"), which silently drops the field for requests that
+// already carry the value.
+func ruleFieldHandlersUnconditional(r *Run, p *Prog, rule string) {
+	upd := p.Method("", "Logger", "UpdateContext")
+	if !r.Anchor(upd != nil, rule, "(*Logger).UpdateContext") {
+		return
+	}
+	n := 0
+	for _, f := range p.RootViews([]string{"hlog"}, "", nil) {
+		if !requestLevel(f) {
+			continue
+		}
+		eachInstr(f, func(b *ssa.BasicBlock, i int, in ssa.Instruction) {
+			c, ok := in.(*ssa.Call)
+			if !ok || staticCallee(&c.Call) != upd {
+				return
+			}
+			n++
+			bad := ""
+			for _, cm := range necessaryCmps(f, c) {
+				x, y, op := cm.X, cm.Y, cm.Op
+				if _, isC := x.(*ssa.Const); isC {
+					x, y, op = y, x, swapOp(op)
+				}
+				okc := false
+				if s, isS := constString(y); isS && s == "" && op == token.NEQ {
+					okc = true
+				}
+				if k, isK := constInt(y); isK {
+					if lc, isL := x.(*ssa.Call); isL && builtinName(&lc.Call) == "len" && ((op == token.GTR && k >= 0) || (op == token.NEQ && k == 0) || (op == token.GEQ && k >= 1)) {
+						okc = true
+					}
+				}
+				if isNilConst(y) && (op == token.EQL || op == token.NEQ) {
+					okc = true // err == nil, ptr != nil
+				}
+				if bv, isB := constBool(y); isB {
+					// positive outcome of a lookup / predicate
+					if (op == token.EQL && bv) || (op == token.NEQ && !bv) {
+						okc = true
+					}
+				}
+				if !okc && bad == "" {
+					bad = cmpString(cm)
+				}
+			}
+			r.Ob(rule, originFnName(f, c)+"/field-added-whenever-present", p.Pos(c.Pos()), bad == "", true, tern(bad == "", "the field is added under 'has a key/value' conditions only", "the handler adds its field only when "+bad+" holds — a negative lookup outcome, not 'there is a value': requests that already carry the value (a pre-assigned id, a second handler of the same kind) get no field on their events"))
+		})
+	}
+	if n < 10 {
+		r.Fail(rule, "field-handlers/sites", "-", fmt.Sprintf("only %d UpdateContext sites found in hlog request closures", n))
+	}
+}
